@@ -2,7 +2,9 @@
   C07 — the property theorems restated about the REGENERATED source.  `Props/C07Src.lean` proves that the definitions
   translated on every run from taurex/optimizer/optimizer.py (`Optimizer.compile_params` with the module-level
   `compile_params`, `update_model`, `fit_values`, `fit_names`, `enable_fit`, `disable_fit`, `set_mode`, `set_boundary`,
-  `set_factor_boundary`, `set_prior`, `enable_derived`, `disable_derived`), run on the Python-object layout of a model state
+  `set_factor_boundary`, `set_prior`, `enable_derived`, `disable_derived`; and, dialect `dyn`, from
+  taurex/parameter/parameterparser.py `ParameterParser.setup_optimizer`, `generate_fitting_parameters`,
+  `generate_derived_parameters`), run on the Python-object layout of a model state
   `s` (`fpDict` / `dpDict` = the `fittingParameters` / `derivedParameters` dicts, `entryTuple` = an element of
   `fitting_parameters`, getters / setters = handles into the world `s`), compute what the state machine `step s op` of
   `TaurexModel/OptimizerSM.lean` computes; `Props/C07.lean` proves the property about `step` / `run`.  The corollaries below
@@ -13,14 +15,23 @@
   which is one tied call.  The corollaries therefore speak of the regenerated method applied to the layout of ANY state a
   history reaches (`run init ops`), instantiated exactly as in the tie theorems:
     * `srcCompile lx s` = `Optimizer.compile_params()` (returns `(_fit_priors, fitting_parameters, fitting_priors,
-      derived_parameters)` and the exception); tie hypothesis kept visible: the keys of the dict `_user_priors` are distinct.
+      derived_parameters)` and the exception); the tie hypothesis (the keys of the dict `_user_priors` are distinct in the
+      reached state) is PROVED along every history (`userPriors_nodup_run`, Proofs/C07SrcLemmas.lean): it only remains as
+      a hypothesis about the start state in `src_compile_history_free_from`, and not at all from a fresh optimizer.
     * `srcUpdate lx s v` = `Optimizer.update_model(v)` (the world afterwards and the exception).
     * `srcFitValues lx s`, `srcFitNames lx s` = the properties `fit_values`, `fit_names`.
     * the eight set-up methods on `fpDict` / `dpDict`; tie hypotheses kept visible: the keys of each dict are distinct.
 
-  Not restated (no tie)
-    * `fitting_section_implied`, `fitting_unknown_is_error`, `fitting_order_free`: `ParameterParser.setup_optimizer` /
-      `generate_fitting_parameters` (taurex/parameter/parameterparser.py) are not in the C07 translation.
+  The `[Fitting]` / `[Derive]` glue (last section): `srcSetup mk pexc c s` = the regenerated
+  `ParameterParser.setup_optimizer(optimizer)` in the world `s` (result / exception and the world afterwards), `srcGenFit` =
+  the regenerated `generate_fitting_parameters()`, under the oracle `fext` of Proofs/C07SrcFitting.lean (`c` = the dict
+  `self._raw_config.dict()`, `SecAt c "Fitting" fitting`: its section is `fitting` or absent; `create_prior(v)` = `mk v` /
+  raises `pexc`; optimizer methods = `step`).  Hypothesis kept visible in the `setup_optimizer` corollaries: `hsup`, no
+  `bounds` / `factor` / `mode` value of a shape outside the documented ones (the model's `unsupported`).
+    * `src_fitting_section_implied` composes BOTH regenerated functions: `setup_optimizer` from the parser, then
+      `Optimizer.compile_params()` from the optimizer, on a fresh optimizer.
+
+  Not restated
     * `implied_names_order`: a statement about the specification `implied` alone (no function of the code in it); it applies
       to the `fitting_parameters` of `src_compile_history_free` as it stands.
     * `compiled_invariant`: about the model invariant `Inv` (a hypothesis builder); it is used below to discharge the guard of
@@ -67,15 +78,17 @@ def srcFitValues (lx : ν → L) (s : St ν α) : Except Py.Err (List α) :=
 /-! ### history freedom -/
 
 /-- **History freedom**, about the regenerated `Optimizer.compile_params()`: run on the state reached by ANY operation
-    sequence from ANY well-formed state, it returns as `fitting_parameters` (in order), `fitting_priors`, the names of
-    `derived_parameters`, and as outcome (ok / ValueError) exactly what the specification `implied` computes from the current
-    settings alone -/
-theorem src_compile_history_free (lx : ν → L) (init : St ν α) (hwf : WF init) (ops : List (Op ν α))
-    (hu : ((run init ops).userPriors.map (·.1)).Nodup) :
+    sequence from ANY well-formed state whose `_user_priors` is a dict (distinct keys — a hypothesis about the START state
+    only; `userPriors_nodup_run` carries it to the reached state), it returns as `fitting_parameters` (in order),
+    `fitting_priors`, the names of `derived_parameters`, and as outcome (ok / ValueError) exactly what the specification
+    `implied` computes from the current settings alone -/
+theorem src_compile_history_free_from (lx : ν → L) (init : St ν α) (hwf : WF init)
+    (hu0 : (init.userPriors.map (·.1)).Nodup) (ops : List (Op ν α)) :
     ∃ fp D, srcCompile lx (run init ops)
         = ((fp, (implied (settings (run init ops))).1.entries.map (entryTuple lx),
             (implied (settings (run init ops))).1.priors, D), outE (implied (settings (run init ops))).2) ∧
       D.map (·.1) = (implied (settings (run init ops))).1.derived := by
+  have hu := userPriors_nodup_run ops init hu0
   have hI := compile_history_free init hwf ops
   rw [run_append] at hI
   simp only [run] at hI
@@ -89,6 +102,20 @@ theorem src_compile_history_free (lx : ν → L) (init : St ν α) (hwf : WF ini
     simp only [view, hok, outE]
   · obtain ⟨extra, D, h1, h2, _⟩ := src_Optimizer_compile_params_error lx (run init ops) hu hok
     exact ⟨_, D, h1, h2⟩
+
+/-- **History freedom**, about the regenerated `Optimizer.compile_params()`, without any hypothesis on the reached state:
+    run on the state reached by ANY operation sequence from a fresh optimizer over ANY two well-formed objects, it returns
+    as `fitting_parameters` (in order), `fitting_priors`, the names of `derived_parameters`, and as outcome (ok /
+    ValueError) exactly what the specification `implied` computes from the current settings alone.  (That the keys of
+    `_user_priors` are distinct in the reached state — the hypothesis of the tie — is proved: `userPriors_nodup_run_init`.) -/
+theorem src_compile_history_free (lx : ν → L) (model obs : List (Param ν α)) (dm dob : List (Derived ν))
+    (hwf : WF (initSt model obs dm dob)) (ops : List (Op ν α)) :
+    ∃ fp D, srcCompile lx (run (initSt model obs dm dob) ops)
+        = ((fp, (implied (settings (run (initSt model obs dm dob) ops))).1.entries.map (entryTuple lx),
+            (implied (settings (run (initSt model obs dm dob) ops))).1.priors, D),
+           outE (implied (settings (run (initSt model obs dm dob) ops))).2) ∧
+      D.map (·.1) = (implied (settings (run (initSt model obs dm dob) ops))).1.derived :=
+  src_compile_history_free_from lx _ hwf (by simp [initSt]) ops
 
 /-! ### `update_model` -/
 
@@ -186,6 +213,158 @@ theorem src_fit_names_total (lx : String → L) (model obs : List (Param String 
   unfold srcFitNames
   rw [src_fit_names, hr]
   exact ⟨_, rfl⟩
+
+end
+
+
+/-! ### `[Fitting]` / `[Derive]` sections (`ParameterParser.setup_optimizer`, `generate_fitting_parameters`) -/
+
+section
+open Taurex.FittingSection Taurex.Gen.Dyn
+variable {α L : Type} [Add α] [Sub α] [Mul α] [Div α] [Neg α] [LT α] [LE α]
+  [DecidableLT α] [DecidableLE α] [Taurex.Transc α] [OfNat α 0] [BEq (FObj α)]
+
+/-- the regenerated `ParameterParser.setup_optimizer(optimizer)` in the world `s`: what it returns / raises, and the world
+    afterwards -/
+def srcSetup (mk : FV α → Option (Prior α)) (pexc : Exc) (c : List (FV α × FV α)) (s : St String α) :
+    Except Exc (FV α) × St String α :=
+  Gen.SrcC07.setup_optimizer (fext mk pexc (.dict c)) (.obj .self) (.obj .optimizer) s
+
+/-- the regenerated `ParameterParser.generate_fitting_parameters()` -/
+def srcGenFit (mk : FV α → Option (Prior α)) (pexc : Exc) (c : List (FV α × FV α)) (s : St String α) :
+    Except Exc (FV α) × St String α :=
+  Gen.SrcC07.generate_fitting_parameters (fext mk pexc (.dict c)) (.obj .self) s
+
+theorem srcSetup_eq (mk : FV α → Option (Prior α)) (pexc : Exc) (c : List (FV α × FV α))
+    (fitting derive : List (String × OptVal α)) (hF : SecAt c "Fitting" fitting) (hD : SecAt c "Derive" derive)
+    (s : St String α) (hsup : (setupOptimizer (fun v => mk (embV v)) s fitting derive).2.1 ≠ .unsupported) :
+    srcSetup mk pexc c s = (resV pexc (setupOptimizer (fun v => mk (embV v)) s fitting derive).2.1,
+                            (setupOptimizer (fun v => mk (embV v)) s fitting derive).1) :=
+  src_setup_optimizer mk pexc c fitting derive hF hD s hsup
+
+/-- **The set-up an input file asks for**, about the regenerated `setup_optimizer` AND the regenerated
+    `Optimizer.compile_params()`: if `setup_optimizer` returns (raises nothing) on a fresh optimizer (names unique across
+    the tables, derived names of model and observation disjoint), then `compile_params()` run on the world it leaves returns
+    as `fitting_parameters` (in order), `fitting_priors`, names of `derived_parameters` and outcome exactly what `implied`
+    computes from the settings the two sections DESCRIBE (`sectionSettings`) -/
+theorem src_fitting_section_implied (lx : String → L) (mk : FV α → Option (Prior α)) (pexc : Exc) (c : List (FV α × FV α))
+    (model obs : List (Param String α)) (dm dob : List (Derived String)) (fitting derive : List (String × OptVal α))
+    (hF : SecAt c "Fitting" fitting) (hD : SecAt c "Derive" derive)
+    (hwf : WF (initSt model obs dm dob)) (hdd : DisjD (initSt model obs dm dob : St String α))
+    (hsup : (setupOptimizer (fun v => mk (embV v)) (initSt model obs dm dob) fitting derive).2.1 ≠ .unsupported)
+    (hok : (srcSetup mk pexc c (initSt model obs dm dob)).1 = .ok .none) :
+    ∃ grp dl, parseFitting (fun v => mk (embV v)) fitting [] = .ok grp ∧ splitAll derive = some dl ∧
+      ∃ fp D, srcCompile lx (srcSetup mk pexc c (initSt model obs dm dob)).2
+          = ((fp, (implied (sectionSettings (initSt model obs dm dob) grp (deriveRecs dl []))).1.entries.map (entryTuple lx),
+              (implied (sectionSettings (initSt model obs dm dob) grp (deriveRecs dl []))).1.priors, D),
+             outE (implied (sectionSettings (initSt model obs dm dob) grp (deriveRecs dl []))).2) ∧
+        D.map (·.1) = (implied (sectionSettings (initSt model obs dm dob) grp (deriveRecs dl []))).1.derived := by
+  rw [srcSetup_eq mk pexc c fitting derive hF hD _ hsup] at hok ⊢
+  have hok' := (resV_ok_iff pexc _).1 hok
+  obtain ⟨grp, dl, hp, hsd, hset, hw'⟩ :=
+    setup_ok_settings (fun v => mk (embV v)) (initSt model obs dm dob) hwf hdd rfl fitting derive hok'
+  refine ⟨grp, dl, hp, hsd, ?_⟩
+  have hu : ((setupOptimizer (fun v => mk (embV v)) (initSt model obs dm dob) fitting derive).1.userPriors.map
+      (·.1)).Nodup := by
+    rw [setup_run]
+    exact userPriors_nodup_run_init model obs dm dob _
+  have h := src_compile_history_free_from lx _ hw' hu []
+  simp only [run] at h
+  rw [hset] at h
+  exact h
+
+/-- **Unknown names and malformed keys in a section are errors**, about the regenerated `setup_optimizer` on any
+    well-formed world: a `[Fitting]` key that is not `name:option` makes it raise and leaves the world untouched; a
+    `[Fitting]` line naming a parameter found in neither table makes it raise; a `[Derive]` key that is not `name:option`
+    makes it raise; a `[Derive]` line `name:compute` naming an unknown derived parameter makes it raise -/
+theorem src_fitting_unknown_is_error (mk : FV α → Option (Prior α)) (pexc : Exc) (c : List (FV α × FV α))
+    (s : St String α) (hw : WF s) (hd : DisjD s) (fitting derive : List (String × OptVal α))
+    (hF : SecAt c "Fitting" fitting) (hD : SecAt c "Derive" derive)
+    (hsup : (setupOptimizer (fun v => mk (embV v)) s fitting derive).2.1 ≠ .unsupported) :
+    ((∃ kv ∈ fitting, splitKey kv.1 = none) →
+      (∃ e, (srcSetup mk pexc c s).1 = .error e) ∧ (srcSetup mk pexc c s).2 = s) ∧
+    ((∃ kv ∈ fitting, ∃ a b, splitKey kv.1 = some (a, b) ∧ ¬ Known s a) → ∃ e, (srcSetup mk pexc c s).1 = .error e) ∧
+    ((∃ kv ∈ derive, splitKey kv.1 = none) → ∃ e, (srcSetup mk pexc c s).1 = .error e) ∧
+    ((∃ kv ∈ derive, ∃ a, splitKey kv.1 = some (a, "compute") ∧ ¬ KnownD s a) →
+      ∃ e, (srcSetup mk pexc c s).1 = .error e) := by
+  obtain ⟨h1, h2, h3, h4⟩ := fitting_unknown_is_error (fun v => mk (embV v)) s hw hd fitting derive
+  rw [srcSetup_eq mk pexc c fitting derive hF hD s hsup]
+  exact ⟨fun h => ⟨resV_error pexc _ (h1 h).1, (h1 h).2.1⟩, fun h => resV_error pexc _ (h2 h),
+    fun h => resV_error pexc _ (h3 h), fun h => resV_error pexc _ (h4 h)⟩
+
+/-- **The order of the `[Fitting]` lines is irrelevant**, about the regenerated `generate_fitting_parameters`: on two
+    input files whose `[Fitting]` lines (split at the colon) are permutations of each other, with keys unique as ConfigObj
+    guarantees, it either raises the same exception on both, or returns two dicts that hold (`GrpSim`) records describing
+    settings with the same `implied` set-up — which by `src_fitting_section_implied` is what the regenerated
+    `setup_optimizer` + `compile_params` produce -/
+theorem src_fitting_order_free (mk : FV α → Option (Prior α)) (pexc : Exc) (c c' : List (FV α × FV α))
+    (s0 s : St String α) (ents ents' : List (String × OptVal α)) (ls ls' : List (Line α))
+    (hF : SecAt c "Fitting" ents) (hF' : SecAt c' "Fitting" ents')
+    (hs : splitAll ents = some ls) (hs' : splitAll ents' = some ls') (hperm : ls.Perm ls')
+    (hnd : (ls.map lkey).Nodup) (drecs : List (String × Option (OptVal α))) :
+    (∃ e, srcGenFit mk pexc c s = (.error e, s) ∧ srcGenFit mk pexc c' s = (.error e, s)) ∨
+    (∃ D D' grp grp', srcGenFit mk pexc c s = (.ok (.dict D), s) ∧ srcGenFit mk pexc c' s = (.ok (.dict D'), s) ∧
+      GrpSim D grp ∧ GrpSim D' grp' ∧
+      implied (sectionSettings s0 grp drecs) = implied (sectionSettings s0 grp' drecs)) := by
+  have h := fitting_order_free (fun v => mk (embV v)) s0 ents ents' ls ls' hs hs' hperm hnd drecs
+  have g := src_generate_fitting_parameters mk pexc c ents hF s
+  have g' := src_generate_fitting_parameters mk pexc c' ents' hF' s
+  unfold srcGenFit
+  cases hp : parseFitting (fun v => mk (embV v)) ents [] with
+  | error e =>
+    cases hp' : parseFitting (fun v => mk (embV v)) ents' [] with
+    | error e' =>
+      rw [hp, hp'] at h
+      simp only at h
+      subst h
+      exact .inl ⟨_, fitOutcome_err hp g, fitOutcome_err hp' g'⟩
+    | ok grp' => rw [hp, hp'] at h; exact h.elim
+  | ok grp =>
+    cases hp' : parseFitting (fun v => mk (embV v)) ents' [] with
+    | error e' => rw [hp, hp'] at h; exact h.elim
+    | ok grp' =>
+      rw [hp, hp'] at h
+      simp only at h
+      obtain ⟨D, hD, hsim⟩ := fitOutcome_ok hp g
+      obtain ⟨D', hD', hsim'⟩ := fitOutcome_ok hp' g'
+      exact .inr ⟨D, D', grp, grp', hD, hD', hsim, hsim', h⟩
+
+/-- non-vacuity of `src_fitting_section_implied` / `src_fitting_unknown_is_error`: for the example optimizer and sections of
+    Props/C07.lean (`exInit`, `exFitting`, `exDerive`, no `prior` lines) the model's outcome is `ok` (so `hsup` holds), the
+    sections are where `SecAt` wants them, and the regenerated `setup_optimizer` returns `None` (`hok`) -/
+example [BEq (FObj ℝ)] :
+    (setupOptimizer (fun v => (fun _ => none : FV ℝ → Option (Prior ℝ)) (embV v)) exInit exFitting exDerive).2.1 ≠ .unsupported ∧
+    SecAt (α := ℝ) [(.str "Fitting", .dict (embSec exFitting)), (.str "Derive", .dict (embSec exDerive))] "Fitting" exFitting ∧
+    SecAt (α := ℝ) [(.str "Fitting", .dict (embSec exFitting)), (.str "Derive", .dict (embSec exDerive))] "Derive" exDerive ∧
+    (srcSetup (fun _ => none) Exc.ValueError
+      [(.str "Fitting", .dict (embSec exFitting)), (.str "Derive", .dict (embSec exDerive))] exInit).1 = .ok .none := by
+  have hok : (setupOptimizer (fun _ => none) exInit exFitting exDerive).2.1 = .ok := by
+    have k1 : splitKey "T:fit" = some ("T", "fit") := by decide +kernel
+    have k2 : splitKey "T:bounds" = some ("T", "bounds") := by decide +kernel
+    have k3 : splitKey "H2O:mode" = some ("H2O", "mode") := by decide +kernel
+    have k4 : splitKey "Offset_1:fit" = some ("Offset_1", "fit") := by decide +kernel
+    have k5 : splitKey "Offset_1:factor" = some ("Offset_1", "factor") := by decide +kernel
+    have k6 : splitKey "mu:compute" = some ("mu", "compute") := by decide +kernel
+    have c1 : classify "fit" = .fit := by decide +kernel
+    have c2 : classify "bounds" = .bounds := by decide +kernel
+    have c3 : classify "mode" = .mode := by decide +kernel
+    have c4 : classify "factor" = .factor := by decide +kernel
+    have m1 : parseMode "linear" = some FitMode.linear := by decide +kernel
+    have m2 : "LINEAR".toLower = "linear" := by decide +kernel
+    simp [setupOptimizer, exFitting, exDerive, exInit, initSt, parseFitting, k1, k2, k3, k4, k5, k6, setOpt, c1, c2, c3, c4,
+      getRec, updRec, fittingOps, recOps, pairOpt, modeOpt, FittingSection.truthy, PairOpt.isBad, ModeOpt.isBad, fitOps,
+      factorOps, boundsOps, modeOps, priorOps, runStop, step, withParam, ownerOf, hasName, table, setTable, modifyParam, m1,
+      m2, splitAll, deriveRecs, updD, deriveOps, withDerived, hasDerived]
+  have hs := secAt_cfgOf (α := ℝ) exFitting exDerive
+  have hsup : (setupOptimizer (fun v => (fun _ => none : FV ℝ → Option (Prior ℝ)) (embV v)) exInit exFitting exDerive).2.1
+      ≠ .unsupported := by
+    show (setupOptimizer (fun _ => none) exInit exFitting exDerive).2.1 ≠ .unsupported
+    rw [hok]; decide
+  refine ⟨hsup, hs.1, hs.2, ?_⟩
+  rw [srcSetup_eq _ _ _ exFitting exDerive hs.1 hs.2 _ hsup]
+  show resV _ (setupOptimizer (fun _ => none) exInit exFitting exDerive).2.1 = _
+  rw [hok]
+  rfl
 
 end
 
